@@ -56,7 +56,7 @@ ASSUMPTIONS = [
 REQUIRED_MONITORS = ["fd_dirs_compared", "evaluator_pairs_compared", "padding_rows_checked", "excited_dirs_compared",
                      "axis_aligned_dirs_compared", "sp2_dirs_compared", "dispersion_dirs_compared", "exact_x_axis_dirs_compared",
                      "finite_checks", "cg_batches_with_uneven_iterations", "batch_vs_alone_rows_compared",
-                     "reeval_calls_compared", "allforces_slots_compared"]
+                     "reeval_calls_compared", "allforces_slots_compared", "excited_analytical_rows_in_padded_homog_batch"]
 CASE_TIMEOUT = 600.0
 BUDGET_S = {"quick": float(os.environ.get("VERIF_BUDGET_QUICK", 200)), "thorough": float(os.environ.get("VERIF_BUDGET_THOROUGH", 1700))}
 
@@ -277,6 +277,16 @@ def gen_cases(tier, seed):
                        "modes": ["analytical"], "orient": _orient_generic(), "layout": "homog",
                        "sigmas": [0.0, 0.03, 0.1, 0.15] if not quick or name == "CH2O" else [0.0, 0.1, 0.15],
                        "excited": {"method": xm, "n_states": act + 2, "active": act}, "seed": int(g.integers(0, 2**31))})
+    # excited-state analytical gradient in a HOMOGENEOUS batch whose species rows carry trailing zero-padding columns
+    for name, method, xm, act, mode, nr, xp in ((("CH2O", "AM1", "cis", 1, "analytical", 2, 1), ("H2O", "PM3", "rpa", 1, "analytical", 3, 2),
+                                                 ("CH2O", "MNDO", "cis", 2, "autodiff", 2, 1)) if quick else
+                                                (("CH2O", "AM1", "cis", 1, "analytical", 2, 1), ("H2O", "PM3", "rpa", 1, "analytical", 3, 2),
+                                                 ("CH2O", "MNDO", "cis", 2, "autodiff", 2, 1), ("C2H4", "PM3", "cis", 1, "analytical", 3, 1),
+                                                 ("HCN", "AM1", "rpa", 2, "analytical", 2, 3), ("NH3", "PM6_SP", "cis", 1, "autodiff", 3, 2))):
+        lib.insert(0, {"kind": "lib", "mol": name, "method": method, "conv": [2], "sp2": None, "uhf": False,
+                       "modes": [mode], "orient": _orient_generic(), "layout": "homog", "nrows": nr, "extra_pad": xp,
+                       "pad_value": 0.0, "sigma": 0.08, "alone": True, "seed": int(g.integers(0, 2**31)),
+                       "excited": {"method": xm, "n_states": act + 2, "active": act}})
     # repeated evaluations of ONE Molecule object (what MD / optimisers do) with excited-state reverse-mode forces
     rev = [(["CH2O"], "AM1", "cis", 1, 1), (["CH2O"], "PM3", "rpa", 1, 1), (["CH2O", "H2O"], "AM1", "cis", 1, 1),
            (["C2H4", "C2H4"], "MNDO", "cis", 1, 2)]
@@ -1165,10 +1175,36 @@ def run_case(case):
             pass
 
     nontrivial = False
+    padded_homog_exc = bool(exc) and case["layout"] == "homog" and case.get("extra_pad", 0) > 0 and len(rows) > 1
+    if padded_homog_exc:
+        check = list(range(len(rows)))
     for r in check:
         Z, X, q, m = rows[r]
         n = len(Z)
         mon["rows_checked"] += 1
+        if padded_homog_exc:
+            mon["excited_analytical_rows_in_padded_homog_batch"] = mon.get("excited_analytical_rows_in_padded_homog_batch", 0) + 1
+            # the same row alone (no padding): energies guard the state identity, forces must agree
+            for mo in modes:
+                try:
+                    o1 = run.single_point(Z, X, _settings(case, mo), charges=q, mult=m)
+                except Exception as e:
+                    if _is_solver_nonconvergence(e):
+                        continue
+                    viol.append({"clause": "alone-run-raised-where-batch-did-not/" + mo, "mech": None,
+                                 "detail": {"row": r, "error": repr(e)[:300], "species": Z, "coords": X.tolist()}})
+                    continue
+                ncb_ = outs[mo]["notconverged"]
+                if (ncb_ is not None and bool(np.asarray(ncb_).reshape(-1)[r])) or bool(np.asarray(o1["notconverged"]).any()):
+                    continue
+                if not (abs(float(o1["Etot"][0]) - float(outs[mo]["Etot"][r])) <= E0_GUARD):
+                    continue
+                dF = np.abs(outs[mo]["force"][r, :n] - o1["force"][0, :n]).max()
+                mon["padded_homog_rows_compared_with_alone"] = mon.get("padded_homog_rows_compared_with_alone", 0) + 1
+                if upd("padded_homog_excited_vs_alone/" + mo, dF, TOL_REEVAL_FRESH):
+                    viol.append({"clause": "excited-padded-batch-row-vs-alone-force/" + mo, "mech": None,
+                                 "detail": {"row": r, "max_abs_diff": float(dF), "tol": TOL_REEVAL_FRESH, "species": Z,
+                                            "coords": X.tolist(), "species_rows": np.asarray(S).tolist()}})
         ncflags = {}
         for mode in modes:
             nc = outs[mode]["notconverged"]
